@@ -78,6 +78,7 @@ func runPipe(c *Ctx) {
 	if p.wants("C08") {
 		pDirectedD5(p)
 		pDirectedNoSilence(p)
+		pDirectedStopBlockedProducers(p)
 	}
 	if p.wants("C07") {
 		pDirectedFlushBehindFlush(p)
@@ -329,6 +330,63 @@ func pDirectedD5(p *pipeCtx) {
 	lc.fire() // the AfterFunc callback finally runs
 	res := r.finish(time.Second, true)
 	p.emit(r, res, pEvalOpts{props: []string{"C08"}, sig: "stop-deadline-no-flushcancel", nontrivial: true, kind: "directed-late-afterfunc"})
+}
+
+// Stop honours its deadline although producers are blocked inside IngestRows: flush 1 is wedged in the store,
+// flush 2 fills the flush queue, flush 3 blocks the actor, the next batch fills the ingest queue and one or two
+// more IngestRows calls (contexts that never expire) block in their send. Stop with a short deadline must return
+// soon after it, and the blocked callers must come back (accepted or refused) instead of hanging.
+func pDirectedStopBlockedProducers(p *pipeCtx) {
+	reps := p.c.pick(3, 10)
+	for v := 0; v < reps; v++ {
+		o := defaultOpts()
+		o.ICap = 1
+		o.MaxRows = 1
+		ctx := context.Background()
+		r := newPRun(p.c, fmt.Sprintf("stop-deadline-blocked-producers-%d", v), o)
+		_, release := r.plan.wedgeAt([]string{"CreateFile", "Write", "Close", "Update"}[v%4], 0)
+		r.start()
+		for i := 0; i < 3; i++ {
+			r.ingest(ctx, "buf", simpleBatch(r, 1))
+		}
+		if !waitFor(func() bool { return r.hasEvent("fq.try", 3) }, 2*time.Second) {
+			p.c.dist("run_kind", "discarded-setup")
+			release()
+			r.stopWithDeadline(time.Second)
+			r.finish(time.Second, false)
+			continue
+		}
+		r.ingest(ctx, "buf", simpleBatch(r, 1)) // fills the ingest queue
+		nBlocked := 1 + v%2
+		for i := 0; i < nBlocked; i++ {
+			r.goProducer(func() { r.ingest(ctx, "buf", simpleBatch(r, 1)) })
+		}
+		// the extra callers are inside IngestRows and have not got their request in
+		waitFor(func() bool { return r.hasEvent("ingest.try", 4+nBlocked) }, time.Second)
+		time.Sleep(20 * time.Millisecond)
+		deadline := time.Duration(150+p.c.intn(150)) * time.Millisecond
+		stopDone := make(chan struct{})
+		t0 := time.Now()
+		go func() { r.stopWithDeadline(deadline); close(stopDone) }()
+		late := false
+		select {
+		case <-stopDone:
+		case <-time.After(deadline + 3*time.Second):
+			late = true
+			p.c.violation("", fmt.Sprintf("run %s: Stop had not returned %v after its %v deadline expired (flush worker wedged in the store, %d callers blocked inside IngestRows)",
+				r.name, time.Since(t0)-deadline, deadline, nBlocked), map[string]any{"deadline_ms": deadline.Milliseconds(), "blocked_callers": nBlocked})
+		}
+		release()
+		if late {
+			select {
+			case <-stopDone:
+			case <-time.After(10 * time.Second):
+			}
+		}
+		res := r.finish(3*time.Second, true)
+		p.emit(r, res, pEvalOpts{props: []string{"C08"}, nontrivial: true, kind: "directed-stop-blocked-producers",
+			extra: map[string]any{"deadline_ms": deadline.Milliseconds(), "blocked_callers": nBlocked, "stop_late": late}})
+	}
 }
 
 // D9: the deadline fires, an ack is given up, the workers exit, and only then Stop reaches its select.
